@@ -96,6 +96,7 @@ func distinctCount(a []int) int {
 func drainCliques(gr graph.Graph) (cliques [][]int, err error) {
 	ch := make(chan []int)
 	fail := make(chan any, 1)
+	var live [][]int
 	go func() {
 		defer func() {
 			if p := recover(); p != nil {
@@ -108,9 +109,16 @@ func drainCliques(gr graph.Graph) (cliques [][]int, err error) {
 		select {
 		case c, ok := <-ch:
 			if !ok {
+				// a consumer may keep what it received: a clique that was delivered must not change afterwards
+				for i := range live {
+					if !eqInts(live[i], cliques[i]) {
+						return nil, fmt.Errorf("AllMaximalCliques: clique #%d was delivered as %v and reads %v after the channel was closed (the producer reused its memory)", i, cliques[i], live[i])
+					}
+				}
 				return cliques, nil
 			}
 			cliques = append(cliques, append([]int{}, c...))
+			live = append(live, c)
 			if len(cliques) > 1<<20 {
 				return nil, fmt.Errorf("AllMaximalCliques sent more than 2^20 cliques")
 			}
@@ -406,7 +414,7 @@ func checkColouringCase(c invCase, rec *Rec) error {
 	sort.Strings(names)
 	var base cliqueColourValues
 	for i, name := range names {
-		v, err := checkColouringOn(name, g, reps(g)[name], a, c, rec)
+		v, err := checkColouringOn(name, g, repOf(g, name), a, c, rec)
 		if err != nil {
 			return err
 		}
